@@ -17,6 +17,7 @@ pub mod c08;
 pub mod c09;
 pub mod c10;
 pub mod c11;
+pub mod huge;
 pub mod c12;
 pub mod c13;
 pub mod tendril_ops;
@@ -45,6 +46,9 @@ pub fn meta(args: &Args, rule: &str, assumptions: &[&str]) -> Meta {
 pub fn dispatch(args: &Args) -> i32 {
     if args.id == "NOP" {
         return 0;
+    }
+    if args.id == "HUGE-TENDRIL" {
+        return huge::child_main();
     }
     let (m, st): (Meta, Stats) = match args.id.as_str() {
         "C01" => c01::run(args),
